@@ -519,7 +519,11 @@ class Representation(ObjectWithFields):
             segment_num = int(segment_time // self.segment_duration)
 
         seg_delta = self.timescale_to_timedelta(timecode)
-        fta = timing.firstAvailableTime - timing.leeway
+        # A segment becomes available when it ends and stays available for
+        # timeShiftBufferDepth plus its own duration after that, so its start
+        # can be two segment durations older than firstAvailableTime
+        fta = (timing.firstAvailableTime - timing.leeway -
+               self.timescale_to_timedelta(2 * self.segment_duration))
         if (
                 seg_delta < fta or
                 seg_delta > timing.elapsedTime
